@@ -70,6 +70,9 @@ type State struct {
 	funcs      map[string]bool
 	frozenObjs map[*Object]bool
 	allocLimit *Term
+	nonNaN      map[*Term]bool
+	noNaNInputs bool
+	keyMemo     map[*Term]*Term
 }
 
 var finfoMu sync.Mutex
